@@ -45,7 +45,7 @@ class PassTap:
             self.nxt.put(p)
 
 
-ELEMENT_KINDS = ["wire", "port", "port0", "tb", "sp", "rr", "wrr", "drr", "wfq", "flowdemux"]
+ELEMENT_KINDS = ["wire", "port", "port0", "tb", "sp", "rr", "wrr", "drr", "wfq", "flowdemux", "fibdemux"]
 
 # ---- kind 'pipe': linear pipelines of 2-3 REAL elements that have an interface adapter (coq/Elem/Adapt*.v), driven by
 # the elem_common harness and replayed in the COMPOSITE Coq model (coq/Elem/Compose.v) --------------------------------
@@ -193,10 +193,15 @@ class GenSinkPart:
                          "arr": [cf.qjson(rng.choice([Fraction(0), Fraction(1, 4), Fraction(1, 2), Fraction(1), Fraction(2)])) for _ in range(n + 1)],
                          "sizes": [rng.choice([64, 128, 512, 1024]) for _ in range(n)]})
         chain = [rng.choice(ELEMENT_KINDS) for _ in range(rng.randint(1, 3))]
-        # a demux fans out: keep it last
-        if "flowdemux" in chain:
-            chain = [c for c in chain if c != "flowdemux"] + ["flowdemux"]
+        # a demux fans out: keep (one of) it last
+        if "flowdemux" in chain or "fibdemux" in chain:
+            last = rng.choice([c for c in chain if c in ("flowdemux", "fibdemux")])
+            chain = [c for c in chain if c not in ("flowdemux", "fibdemux")] + [last]
+        # FIBDemux: per flow, where the packet must go: its registered end device ('end'; 'end+fib' = also present in the
+        # forwarding table, the end device still wins), the table's output ('fib'), or the default output / nowhere
+        fibmode = {str(g["flow"]): rng.choice(["end", "end+fib", "end+fib", "fib", "fib", "unknown"]) for g in gens}
         return {"kind": "pipeline", "gens": gens, "chain": chain, "rate": rng.choice([1024, 4096, 65536]),
+                "fibmode": fibmode, "fibdefault": rng.random() < 0.6,
                 "qlimit": rng.choice([None, None, 2, 3, 2048]), "limit_bytes": rng.random() < 0.5,
                 "delay": cf.qjson(rng.choice([Fraction(0), Fraction(1, 4), Fraction(1)]))}
 
@@ -249,7 +254,7 @@ class GenSinkPart:
         from onl.netdev.wire import Wire
         from onl.netdev.port import Port
         from onl.netdev.token_bucket import TokenBucket
-        from onl.netdev.demux import FlowDemux
+        from onl.netdev.demux import FlowDemux, FIBDemux
         from onl.scheduler import SP, RR, WRR, DRR, WFQ
         rate = case["rate"]
         name = f"{idx}:{kind}"
@@ -281,6 +286,12 @@ class GenSinkPart:
             e = WFQ(env, rate, {f: f + 1 for f in flows})
         elif kind == "flowdemux":
             e = FlowDemux([out for _ in flows][:max(1, len(flows) - 1)], None)   # the last flow has no route and no default
+            return e, e
+        elif kind == "fibdemux":
+            mode = case.get("fibmode", {})
+            fib = {f: 0 for f in flows if "fib" in mode.get(str(f), "fib")}
+            ends = {f: nxt_of(f) for f in flows if mode.get(str(f), "fib").startswith("end")}
+            e = FIBDemux(outs=[out], ends=ends, fib=fib, default_out=out if case.get("fibdefault") else None)
             return e, e
         else:
             raise ValueError(kind)
@@ -864,6 +875,19 @@ class GenSinkPart:
                 nfl = len(case["gens"])
                 routed = max(1, nfl - 1)
                 noroute = sum(1 for x in ins if x[3] >= routed)
+            if kind == "fibdemux":
+                # end devices are reached directly (not through the stage's output tap): by the FIBDemux rule every packet goes
+                # to exactly ONE place: its end device, else the table's output, else the default output, else nowhere
+                mode = case.get("fibmode", {})
+                via_out = [x for x in ins if not mode.get(str(x[3]), "fib").startswith("end")
+                           and ("fib" in mode.get(str(x[3]), "fib") or case.get("fibdefault"))]
+                via_end = [x for x in ins if mode.get(str(x[3]), "fib").startswith("end")]
+                if sorted(x[1] for x in outs) != sorted(x[1] for x in via_out):
+                    msgs.append(f"pipeline-demux-output: FIBDemux {key} handed {sorted(x[1] for x in outs)} to its output/default, the rule "
+                                f"(end device, else table, else default, else nowhere; modes {mode}, default={case.get('fibdefault')}) gives "
+                                f"{sorted(x[1] for x in via_out)}")
+                stage_in[idx + 1] = via_out + via_end
+                continue
             if len(outs) + dropped + noroute != len(ins):
                 msgs.append(f"pipeline-conservation: element {key}: {len(ins)} in, {len(outs)} forwarded, {dropped} counted drops, "
                             f"{noroute} without route: {len(ins) - len(outs) - dropped - noroute} packets unaccounted for at quiescence")
